@@ -277,7 +277,23 @@ def connect_case(ctx, entries, mask, behaviour, cut, case, fail_kind=0):
     if live:
         ctx.report('timer-left', '%d delayed calls left on the reactor after connect concluded' % len(live), w, case)
     if wire is not None and not wire.lost:
+        # whatever the outcome was, the transport eventually closes: nothing may fire or raise then
+        n_before = len(results)
+        crashes_before = len(wire.crashes)
         wire.lose()
+        try:
+            reactor.advance(100000)
+        except Exception as e:
+            wire.crashes.append(e)
+        ctx.count('closed_after_conclusion')
+        if len(results) != n_before:
+            w['results'] = [(k_, repr(v)[:120]) for k_, v in results]
+            ctx.report('fired-again-after-close', 'connect() Deferred fired again when the transport closed after the attempt '
+                       'had concluded (%s)' % want, w, case)
+        elif len(wire.crashes) != crashes_before:
+            w['crash'] = repr(wire.crashes[-1])
+            ctx.report('close-after-conclusion-raised', 'closing the transport after connect() had concluded (%s, behaviour '
+                       '%s) raised %r' % (want, behaviour, wire.crashes[-1]), w, case)
     return total
 
 
@@ -416,6 +432,7 @@ def established_case(ctx, scenario_idx, lose_at, partial, case):
         proxies = {}          # idx -> {'d': Outcome, 'obj': proxy or None, 'cb': Counter}
         pending_introspect = []
         reentrant = []
+        cancelled = []
         loss = Failure(ConnectionLost('verif established loss'))
         w = {'scenario': scenario_idx, 'steps': [[k, a] for k, a in steps], 'lose_at': lose_at, 'partial': partial}
 
@@ -424,7 +441,14 @@ def established_case(ctx, scenario_idx, lose_at, partial, case):
 
             def got(obj):
                 rec['obj'] = obj
-                obj.notifyOnDisconnect(rec['cb'])
+                if (scenario_idx + idx) % 4 == 2:
+                    c_ = Counter('cancelled-proxy%d' % idx)
+                    obj.notifyOnDisconnect(c_)
+                    obj.notifyOnDisconnect(rec['cb'])
+                    obj.cancelNotifyOnDisconnect(c_)
+                    cancelled.append(('proxy', c_))
+                else:
+                    obj.notifyOnDisconnect(rec['cb'])
                 return obj
             d.addCallback(got)
             rec['d'].attach(d)
@@ -444,6 +468,15 @@ def established_case(ctx, scenario_idx, lose_at, partial, case):
             elif kind == 'dc':
                 dcs[a['idx']] = Counter('dc%d' % a['idx'])
                 conn.notifyOnDisconnect(dcs[a['idx']])
+                if scenario_idx % 4 == 1:
+                    # a callback registered and cancelled again must not run; the ones around it must
+                    c_ = Counter('cancelled-dc%d' % a['idx'])
+                    conn.notifyOnDisconnect(c_)
+                    extra = Counter('after-cancelled-dc%d' % a['idx'])
+                    conn.notifyOnDisconnect(extra)
+                    conn.cancelNotifyOnDisconnect(c_)
+                    cancelled.append(('connection', c_))
+                    dcs['x%d' % a['idx']] = extra
                 if a['idx'] == 0 and scenario_idx % 3 == 0:
                     # a listener that says goodbye on the dying connection (with and without a deadline): whatever it
                     # starts must be finished off by the same loss and nothing may fire later
@@ -539,6 +572,12 @@ def established_case(ctx, scenario_idx, lose_at, partial, case):
         else:
             if reentrant:
                 ctx.count('reentrant_calls_failed_by_loss', len(reentrant))
+        for level, cb in cancelled:
+            if cb.calls:
+                ctx.report('cancelled-callback-ran', 'a %s-level disconnect callback that had been cancelled ran %d times' % (
+                    level, len(cb.calls)), w, case)
+                break
+            ctx.count('cancelled_callbacks_silent')
         for i, cb in dcs.items():
             if len(cb.calls) != 1 or not (cb.calls[0][0] is conn and cb.calls[0][1] is loss):
                 ctx.report('connection-callback-count', 'connection-level disconnect callback %d ran %d times' % (
